@@ -666,7 +666,7 @@ func S13(tier string, batch bool) *Scenario {
 }
 
 // S14: more than a hundred auctions alive at once (103 waiting fixed-price auctions created in the
-// preamble by two auctioneers, the last ones with a vesting schedule; the menu creates one more): the
+// preamble by two auctioneers, the last ones with a vesting schedule; thorough: the menu creates one more): the
 // block hook has to open, settle and pay out every one of them, the 101st included.
 func S14(tier string) *Scenario {
 	cfg := world.Config{Balances: map[string]sdk.Coins{
@@ -687,10 +687,13 @@ func S14(tier string) *Scenario {
 	)
 	al := &Alphabet{
 		Bidders: []string{"bid1"}, FixedAmts: []string{"1"},
-		Creates: []Op{{Kind: "create_fixed", Signer: "auc1", StartPrice: "1", Sell: "1acoin", PayDenom: "bcoin", StartK: 2, EndK: 3}},
-		MaxK:    5, BlockStops: []int{2, 3, 4, 5},
+		MaxK: 5, BlockStops: []int{2, 3, 4, 5},
 	}
-	bud := Budget{"bid": 2, "block": 3, "create": 1}
+	bud := Budget{"bid": 2, "block": 3}
+	if tier == "thorough" {
+		al.Creates = []Op{{Kind: "create_fixed", Signer: "auc1", StartPrice: "1", Sell: "1acoin", PayDenom: "bcoin", StartK: 2, EndK: 3}}
+		bud["create"] = 1
+	}
 	return scenFrom("S14-hundred-live-auctions", cfg, pre, bud, al, nil)
 }
 
